@@ -376,7 +376,7 @@ NSHARD = 16
 
 
 def plan(tier):
-    n = 1500 if tier == 'quick' else 30000
+    n = 3000 if tier == 'quick' else 30000
     specs = [{'kind': 'calls', 'shard': i, 'examples': n} for i in range(NSHARD)]
     specs += [{'kind': 'hand', 'shard': 100 + i, 'examples': 120 if tier == 'quick' else 2500} for i in range(8)]
     specs.append({'kind': 'names', 'shard': 200})
